@@ -165,7 +165,7 @@ func VerifC04ECSKeys() {
 // VerifC04ECSStoreHit: what set stores is what a later get returns (apart from
 // TTL, ID), only cacheable answers are stored, nothing is returned after expiry.
 //
-//verif:harness name=H04d-ecs-store tier=quick,thorough bounds="one upstream answer: rcode in {NOERROR, NXDOMAIN, SERVFAIL, REFUSED}, TC symbolic, one A/CNAME/other answer or SOA authority with symbolic TTL (incl. 0); one later lookup at any age; one-slot cache stub honouring the SetWithExpire contract" reach=stored,not-stored,hit,miss-after-expiry prefer=int maxpaths=20000
+//verif:harness name=H04d-ecs-store tier=quick,thorough bounds="one upstream answer: rcode in {NOERROR, NXDOMAIN, SERVFAIL, REFUSED}, TC symbolic, one A/CNAME/other answer or SOA authority with symbolic TTL (incl. 0); TTL override off or on with a symbolic minimum; one later lookup at any age; one-slot cache stub honouring the SetWithExpire contract" reach=stored,not-stored,hit,miss-after-expiry,override prefer=int maxpaths=40000
 //verif:assume the LRU returns an entry iff the key matches and it has not expired (contract of agdcache.Interface; eviction not modelled)
 func VerifC04ECSStoreHit() {
 	noECS, ecs := &verifCache{}, &verifCache{}
@@ -191,6 +191,15 @@ func VerifC04ECSStoreHit() {
 		hasSOA = true
 	case 3: // other type first
 		resp.Answer = []dns.RR{&dns.TXT{Hdr: dns.RR_Header{Name: "example.org.", Rrtype: dns.TypeTXT, Class: dns.ClassINET, Ttl: ttl}, Txt: []string{"x"}}}
+	}
+	// the minimum-TTL override of the configuration
+	override := verifChoice(2) == 1
+	minTTL := int64(0)
+	if override {
+		minTTL = nondetI64()
+		verifAssume(minTTL >= 0)
+		verifAssume(minTTL < 1<<31)
+		mw.overrideTTL, mw.cacheMinTTL = true, time.Duration(minTTL)*time.Second
 	}
 	t0 := int64(1) << 40
 	verifSetClock(t0)
@@ -226,11 +235,22 @@ func VerifC04ECSStoreHit() {
 		return
 	}
 	verifReach("stored")
+	if override && resp.Rcode != dns.RcodeServerFailure && minTTL > int64(lowest) {
+		// kept for the configured minimum instead (never for SERVFAIL)
+		verifAssert("expiry-is-the-configured-minimum", int64(target.exp) == minTTL*1000000000)
+		verifReach("override")
+		return
+	}
 	verifAssert("expiry-is-lowest-ttl", int64(target.exp) == int64(lowest)*1000000000)
 	if resp.Rcode == dns.RcodeServerFailure {
 		verifAssert("servfail-cached-at-most-30s", target.exp <= 30*time.Second)
 	}
 	verifAssert("stores-a-clone", target.val.msg != resp)
+	if override {
+		// the hit path after an override involves the float conversion of the
+		// overridden TTLs; it is decided without override below and in H04b
+		return
+	}
 
 	age := nondetI64()
 	verifAssume(age >= 0)
